@@ -14,8 +14,8 @@ the per-box cell literals b<i>_<cell>, are enumerated with blocking clauses.  Re
 lists and models are pulled back to the lattice and judged by TLC (RectSearchTrace): missing / spurious models,
 sat iff feasible, returned rectangles = boxes of an admitted shape meeting the bound.
 
-A seeded random driver adds larger / irregular grids (to 5x4, random spacing, origin, cell order, occupancy
-denominators 2, 4, 10, k up to 4) on the same path; its bounds are planned with a small Python enumerator
+A seeded random driver adds larger / irregular grids (to 4x3 in quick, 5x4 in thorough; random spacing, origin,
+cell order, occupancy denominators 2, 4, 10, k up to 4) on the same path; its bounds are planned with a small Python enumerator
 (input planning only -- TLC is the judge).
 """
 from __future__ import annotations
@@ -93,7 +93,7 @@ def _solve_once(p):
     models, full = [], 1
     while s.solve():
         m = set(x for x in s.get_model() if x > 0)
-        models.append([[b + 1 for b in range(n) if pv[i][b] in m] for i in range(k)])
+        models.append([sum(1 << b for b in range(n) if pv[i][b] in m) for i in range(k)])
         if len(models) >= MAX_MODELS:
             full = 0
             break
@@ -159,6 +159,15 @@ def run_case(case):
     return obs
 
 
+def probe_select_box(case):
+    """Diagnostic only (no verdict): does rect_io.select_box, which rebuilds the corners as centre -/+ size/2,
+    return cells that still share their corner coordinates?  -> [distinct x, distinct y] it produces."""
+    from tools.rect.rect_io import select_box
+    _emb, _cells, ifile = _embed(dict(case, path="select_box"))
+    ip, _ = select_box("M", ifile)
+    return [len({c[0] for c in ip} | {c[2] for c in ip}), len({c[1] for c in ip} | {c[3] for c in ip})]
+
+
 # ------------------------------------------------------------------------------------------------ planning
 def _grid_cells(xs, ys, occ):
     return [[xs[i], ys[j], xs[i + 1], ys[j + 1], occ[j * (len(xs) - 1) + i]]
@@ -203,12 +212,18 @@ def _plan_best(cells, k, den, fr):
     return best
 
 
-def random_cases(rng: random.Random, n: int) -> list[dict]:
+def random_cases(rng: random.Random, n: int, tier: str) -> list[dict]:
+    """Larger / irregular grids than TLC enumerates: random spacing, origin (also negative), cell order, occupancy
+    denominators 2, 4, 10, k up to 4.  quick keeps to 12 cells (16 for k <= 2), thorough goes to 16 (20 for k <= 2):
+    TLC recomputes the k-STOGs of every submitted grid."""
+    shapes = [(2, 3), (3, 3), (4, 2), (3, 4), (4, 3), (5, 2), (1, 5), (2, 2), (6, 2), (3, 2)]
+    if tier == "thorough":
+        shapes += [(4, 4), (5, 3), (4, 4), (5, 4), (2, 7), (3, 5)]
     cases = []
     for i in range(n):
-        nx, ny = rng.choice([(2, 3), (3, 3), (4, 2), (3, 4), (4, 3), (4, 4), (5, 2), (5, 3), (1, 5), (5, 4), (2, 2)])
-        if nx * ny > 16 and rng.random() < 0.5:
-            nx, ny = ny - 1, nx - 1
+        nx, ny = rng.choice(shapes)
+        if rng.random() < 0.5:
+            nx, ny = ny, nx
         ox, oy = rng.choice([0, 0, 1, 5, -1, -2, -3, 7]), rng.choice([0, 0, 2, 3, -1, -4, 6])
         xs, ys = [ox], [oy]
         for _ in range(nx):
@@ -219,18 +234,22 @@ def random_cases(rng: random.Random, n: int) -> list[dict]:
         # a blob: high occupancy inside a random union of a trunk and two arms, noise elsewhere
         ci, cj = rng.randrange(nx), rng.randrange(ny)
         hot = set()
-        for (i0, i1, j0, j1) in [(rng.randint(0, ci), rng.randint(ci, nx - 1), rng.randint(0, cj), rng.randint(cj, ny - 1)),
-                                 (ci, ci, 0, rng.randrange(ny)), (rng.randrange(nx), nx - 1, cj, cj)][:rng.randint(1, 3)]:
+        arms = [(rng.randint(0, ci), rng.randint(ci, nx - 1), rng.randint(0, cj), rng.randint(cj, ny - 1)),
+                (ci, ci, 0, rng.randrange(ny)), (rng.randrange(nx), nx - 1, cj, cj)]
+        for (i0, i1, j0, j1) in arms[:rng.randint(1, 3)]:
             hot |= {(a, b) for a in range(min(i0, i1), max(i0, i1) + 1) for b in range(min(j0, j1), max(j0, j1) + 1)}
         occ = []
         for j in range(ny):
             for a in range(nx):
-                occ.append(rng.choice([den, den, den - 1, (den + 1) // 2]) if (a, j) in hot else rng.choice([0, 0, 0, 1, den // 2]))
+                occ.append(rng.choice([den, den, den - 1, (den + 1) // 2]) if (a, j) in hot
+                           else rng.choice([0, 0, 0, 1, den // 2]))
         if not any(occ):
             occ[0] = den
         cells = _grid_cells(xs, ys, occ)
         rng.shuffle(cells)                                   # input_problem order is arbitrary
-        k = rng.choice([1, 2, 2, 3, 3, 3]) if nx * ny > 9 else rng.choice([1, 2, 3, 3, 4])
+        ncell = nx * ny
+        k = (rng.choice([1, 2, 3, 3, 4]) if ncell <= 9 else rng.choice([1, 2, 3, 3]) if ncell <= (12 if tier == "quick" else 16)
+             else rng.choice([1, 2, 2]))
         emb = rng.choice(ALL)
         path = "select_box" if emb in EXACT and rng.random() < 0.5 else "direct"
         fr = F(FACTOR[emb]) * EMBEDDINGS[emb].step ** 2
@@ -242,7 +261,7 @@ def random_cases(rng: random.Random, n: int) -> list[dict]:
             plan = (["loop", best - rng.choice([1, 2, 5])] if mode < 3 else
                     ["single", best // 2] if mode == 3 else
                     ["single", best + rng.choice([1, 2])] if mode == 4 else
-                    ["single", VACUOUS if nx * ny <= 12 else best - 3])
+                    ["single", VACUOUS if ncell <= 12 else best - 3])
         cases.append({"kind": "random", "cells": cells, "k": k, "den": den, "emb": emb, "path": path, "plan": plan})
     return cases
 
@@ -273,8 +292,10 @@ def tlc_cases(gen: list[dict], tier: str, rng: random.Random) -> list[dict]:
                     cases.append(dict(base, emb=en, path=path, plan=["single", 0]))
                     continue
                 cases.append(dict(base, emb=en, path=path, plan=["loop", g["best"] - 1]))
-                if si % 5 == 0:
+                if si % 5 == 0:       # a bound well below the optimum: a large model set cut by the cost constraint
                     cases.append(dict(base, emb=en, path=path, plan=["single", g["best"] // 2]))
+                if si % 7 == 0:       # exactly at the optimum
+                    cases.append(dict(base, emb=en, path=path, plan=["single", g["best"]]))
     return cases
 
 
@@ -382,8 +403,17 @@ def run(ctx: Ctx) -> int:
         gen = [g for g in gen if not (g["kind"] == "solve" and len(g["cells"]) >= 9) or id(g) in keep]
     cases = tlc_cases(gen, tier, rng)
     n_tlc = len(cases)
-    cases += random_cases(rng, 250 if tier == "quick" else 2500)
+    cases += random_cases(rng, 150 if tier == "quick" else 1000, tier)
     decide(ctx, cases)
+    # diagnostic (not a verdict): the centre/size path under inexact embeddings
+    grids = [g for g in gen if g["kind"] == "models" and g["k"] == 1]
+    probes = [dict(cells=g["cells"], den=g["den"], k=1, emb=en) for g in grids for en in ALL if en not in EXACT]
+    bad = 0
+    for pc, (st, val) in zip(probes, run_cases(probe_select_box, probes, nproc=8)):
+        nx = len({c[0] for c in pc["cells"]} | {c[2] for c in pc["cells"]})
+        ny = len({c[1] for c in pc["cells"]} | {c[3] for c in pc["cells"]})
+        bad += int(st != "ok" or val != [nx, ny])
+    ctx.extra["select_box_inexact_probe"] = {"grid_x_embedding": len(probes), "corners_no_longer_shared": bad}
     ctx.extra["embeddings"] = ALL
     ctx.extra["cases_from_tlc"] = n_tlc
     ctx.extra["cases_random"] = len(cases) - n_tlc
